@@ -220,7 +220,8 @@ func c05SegStart(p *rtr.Pkt, seg int) int {
 func TestC05(t *testing.T) {
 	r := mc.NewRun(t, "C05", mc.Exploration)
 	r.Rule = "every valid packet of rtr.Cases (path shape x position of the AS x interface choice; validly MACed) and its " +
-		"variants (displaced first hop; hop ingress rewritten to 0 / unknown / every other sibling-owned interface with valid MAC; foreign hop " +
+		"variants (displaced first hop; hop ingress rewritten to 0 / unknown / every other sibling-owned interface with valid MAC - also for the " +
+		"cases that enter over an external interface, so that sibling links carry EVERY hop position: last hop, cross-over, sibling egress; foreign hop " +
 		"fields - those this router neither validates nor reads the AS ingress from - renumbered to every interface id of this AS and 0) " +
 		"x arrival link {matching external, " +
 		"sibling link of the ingress owner, sibling link of another router, internal link} x SrcIA x DstIA in {local, other ISD same AS, " +
@@ -505,6 +506,7 @@ func TestC05(t *testing.T) {
 		"source host kinds the statement does not mention (v4-mapped IPv6, SVC) with a local SrcIA: either verdict accepted, but no panic and an SCMP answer must be InvalidSourceAddress",
 		"'the hop's ingress interface' is the travel-direction ingress of the current hop, or of the previous segment's last hop at the first hop after a (non-peering) segment change; an interface nobody owns (0, unknown) has no owning sibling",
 		"a packet on its first hop arriving over a sibling link is not forbidden by the statement: recorded only",
+		"sibling routers are not assumed to be correct: a sibling link may carry a packet at any hop position (last hop, cross-over hop, egress owned by a sibling); for those the statement still forbids local delivery (only external arrival + last hop + local DstIA delivers) and forwarding with a local DstIA; whether they are otherwise forwarded is recorded only",
 		"underlay source-address spoofing (a host sending from a sibling router's address) is outside the unit under test: the arrival link is given",
 		"interface identifiers are local to an AS: a hop field of another AS carrying a number that also designates an interface of this AS (own or sibling-owned) says nothing about this AS's ingress interface",
 		"the verdict for a packet must not depend on what the same processor handled before (processors are per-goroutine, long-lived): a difference between fresh processors and any length-1 history is a violation, and the differing result is judged by the same table (finding keys with suffix /after-other-packet)",
